@@ -107,6 +107,11 @@ func genShort(t *rapid.T) ShortCase {
 		case 4:
 			f.ShortAlias = nextLetter()
 		}
+		if f.Alias == "" && f.PAlias == "" {
+			// pflag cannot register a bare shorthand: a shorthand alias is
+			// only meaningful next to a long alias name (see Assumptions)
+			f.ShortAlias = ""
+		}
 		var prim, al []string
 		prim = append(prim, "long")
 		if f.Short != "" {
@@ -137,6 +142,11 @@ func genShort(t *rapid.T) ShortCase {
 }
 
 func runShort(c ShortCase) vrt.Verdict {
+	for _, f := range c.Fields {
+		if f.ShortAlias != "" && f.Alias == "" && f.PAlias == "" {
+			return vrt.Discardf("shorthand alias without a long alias is outside the domain")
+		}
+	}
 	if len(c.Fields) == 0 {
 		return vrt.Discardf("no fields")
 	}
@@ -338,6 +348,7 @@ func TestC14PFlagShorthand(t *testing.T) {
 			"non-trivial = >=2 fields, >=2 supplied values, and an aliased field supplied through a shorthand; distinct = distinct case JSON",
 		Assumptions: []string{
 			"pflag.go passes dialspflagshort to its alias mangler, so dialspflagshortalias is taken to be a supported alias spelling of the pflag source",
+			"a dialspflagshortalias is only generated next to a long alias name (dialsalias / dialspflagalias): pflag cannot register a shorthand without a long flag name, so a bare shorthand alias has no flag to attach to",
 			"explicit harness-owned FlagSet (NewSetWithFlagSet, output discarded), zero-valued template",
 			"a shorthand is written -x value (-x=value for bools)",
 		},
